@@ -46,6 +46,7 @@ class FakeWriter:
         self.ev = asyncio.Event()
         self.writes = []  # (offset, vtime)
         self.on_write = on_write
+        self.slow = None  # callable -> seconds, or None (drain returns at once)
 
     def write(self, d):
         if self.closed:
@@ -57,7 +58,13 @@ class FakeWriter:
         self.ev.set()
 
     async def drain(self):
-        pass
+        # A client that reads slowly: when `slow` is set (C10, C01/C03 concurrent mode) draining the
+        # writer is one more I/O completion of the generated schedule (the server awaits drain() after
+        # every push, with a 2 s timeout of its own; latencies here are at most 20 ms).
+        if self.slow is not None:
+            d = self.slow()
+            if d > 0:
+                await asyncio.sleep(d)
 
     def is_closing(self):
         return self.closed
